@@ -10,7 +10,9 @@ import re
 from fractions import Fraction as F
 
 SYMBOLS = {"1": "hit", "2": "hold", "4": "roll", "M": "mine", "L": "lift", "F": "fake", "K": "keysound"}
-KEYS = {"dance-single": 4, "dance-double": 8, "dance-solo": 6, "dance-couple": 4, "dance-threepanel": 3, "dance-routine": 8, "kb7-single": 7}
+# columns per chart type as StepMania defines them (not taken from the library's table)
+KEYS = {"dance-single": 4, "dance-double": 8, "dance-solo": 6, "dance-couple": 8, "dance-threepanel": 3, "dance-routine": 8, "kb7-single": 7,
+        "pump-single": 5, "pump-halfdouble": 6, "pump-double": 10, "pump-couple": 10}
 
 
 class BadFile(Exception):
